@@ -123,6 +123,33 @@ class RulesNonNormal(c03.Rules):
             if r==z3.sat: rec['sample']={'scenario':self.scn(g,m),'expect':'ok' if oc=='ok' else 'err'}
         return rec
 
+EDGE_PATHS=['d','d/.','./d/','x/../d','d\u00e9','d\U0001F600/a','d/a','da','d//a','/d/a']
+class RulesMatchPrefixEdges(RulesNonNormal):
+    """MATCH rules with a source / destination prefix on artifact paths that are the prefix itself, the prefix followed by a
+    multi-byte character, or reach the prefix only after normalisation: any verdict, but no panic"""
+    def __init__(self,**kw):
+        RulesNonNormal.__init__(self,**kw)
+        self.name='C14.rules_match_prefix_edges'
+        self.bounds={'path_universe':EDGE_PATHS,'artifacts':'1-2 paths of the universe on the rule side (free digest byte); the referenced step holds a, d/a, e/a',
+                     'rule_list':'MATCH * / a / ? with IN d or IN d/ as source prefix, optionally IN e as destination prefix, WITH PRODUCTS or MATERIALS, followed by DISALLOW * or nothing','obligation':'no panic'}
+        self.witnesses=['returns']
+    def mk_args(self,run):
+        b=self.b
+        side=['materials','products'][run.pick(2,'side')]
+        pat=['*','a','?'][run.pick(3,'pat')]; src=['d','d/'][run.pick(2,'src')]; dst=[None,'e'][run.pick(2,'dst')]; w=['Products','Materials'][run.pick(2,'with')]
+        rules=[c03.M(pat,in_src=src,in_dst=dst,with_=w)]+[c03.TAILS[0],c03.TAILS[3]][run.pick(2,'tail')]
+        i=run.pick(len(EDGE_PATHS),'p1'); j=run.pick(len(EDGE_PATHS)+1,'p2')
+        chosen=[EDGE_PATHS[i]]+([EDGE_PATHS[j]] if j<len(EDGE_PATHS) and j!=i else [])
+        own={p:self.desc(z3.BitVec('o_%d'%k,8)) for k,p in enumerate(chosen)}
+        td={p:self.desc(z3.BitVec('t_%d'%k,8)) for k,p in enumerate(['a','d/a','e/a'])}
+        links={'it':{'materials':own if side=='materials' else {},'products':own if side=='products' else {}},'t':{'materials':td if w=='Materials' else {},'products':td if w=='Products' else {}}}
+        def mk_art(d):
+            return [(b.vpath(p),b.hashmap([(b.variant('HashAlgorithm','Sha256'),Agg('HashValue',[u8vec(bs)])) for alg,bs in dd.items()])) for p,dd in sorted(d.items())]
+        lm=b.hashmap([(mk_string(n),b.link(n,mk_art(l['materials']),mk_art(l['products']))) for n,l in links.items()])
+        rl=[self.mk_rule(r) for r in rules]
+        it=b.step('it',1,[],rl if side=='materials' else [],rl if side=='products' else [])
+        return [Ref(Cell(Ref(Cell(it)))),Ref(Cell(lm))],{'side':side,'rules':rules,'links':links}
+
 LONG_LENS=[255,4000,4097,70000]
 class RulesLongPaths(c03.Rules):
     """the rule engine on very long (but representable) artifact paths and MATCH prefixes: any verdict, but no panic"""
